@@ -592,6 +592,38 @@ fn leaf_response_entry_installs_headers() {
     }
 }
 
+// `parse_headers` / `parse_headers_iter`: the returned slice is exactly what the header routine left of the caller's array, the offset
+// is the routine's, and the routine is given the whole array and the default options (same model of the routine as above)
+static mut H_CFG: (bool, bool, bool, bool) = (true, true, true, true);
+fn model_hdr_iter_cfg<'a>(headers: &mut &mut [MaybeUninit<Header<'a>>], bytes: &mut Bytes<'a>, config: &HeaderParserConfig) -> Result<usize> {
+    unsafe { H_CFG = (config.allow_spaces_after_header_name, config.allow_obsolete_multiline_headers, config.allow_space_before_first_header_name, config.ignore_invalid_headers); }
+    model_hdr_iter(headers, bytes, config)
+}
+#[kani::proof]
+#[kani::unwind(6)]
+#[kani::stub(crate::parse_headers_iter_uninit, model_hdr_iter_cfg)]
+fn leaf_parse_headers_returns_routines_slice() {
+    let bufa: [u8; 8] = kani::any();
+    let blen: usize = kani::any_where(|l: &usize| *l <= 8);
+    let buf = &bufa[..blen];
+    let mut arr = [Header { name: SENTINEL, value: b"" }; CAP];
+    let cap: usize = kani::any_where(|c: &usize| *c <= CAP);
+    let ap = arr.as_ptr() as usize;
+    let r = parse_headers(buf, &mut arr[..cap]);
+    unsafe {
+        assert!(M_CALLS == 1 && H_CAP == cap && (H_PTR == ap || cap == 0));
+        assert!(H_CFG == (false, false, false, false));
+        match decode(M_RES, M_N) {
+            Ok(Status::Complete(n)) => match r {
+                Ok(Status::Complete((m, hs))) => { assert!(m == n); assert!(hs.len() == H_K && (hs.as_ptr() as usize == ap || H_K == 0)); }
+                _ => assert!(false),
+            },
+            Ok(Status::Partial) => assert!(matches!(r, Ok(Status::Partial))),
+            Err(e) => assert!(r == Err(e)),
+        }
+    }
+}
+
 // ---------------------------------------------------------------------------------------------- slice-cast helpers (C01, C17)
 #[kani::proof]
 fn leaf_slice_casts_are_identity() {
